@@ -232,6 +232,205 @@ def part_a(ck):
                 n_exhaustive=n_exh)
 
 
+# ------------------------------------------------------------------------------------------------
+# B. the real generator on mock scheduler objects
+
+
+def rup(a, b):
+    return (a + b - 1) // b * b
+
+
+def part_b(ck):
+    from ethosu.vela import architecture_allocator, cascade_builder, tflite_graph_optimiser as tgo
+    from ethosu.vela.ethos_u55_regs.ethos_u55_regs import resampling_mode
+    from ethosu.vela.operation import Kernel, Padding
+    from ethosu.vela.shape4d import Shape4D
+
+    rng = ck.rng
+    reqs, reals, metas = [], [], []
+    spec, spec_meta = [], []
+
+    def run(mops, meta):
+        sched_ops, schedule, pss = L.build_mock_cascade(mops)
+        real = L.run_real_generator(sched_ops, schedule, pss)
+        descs = [L.opdesc_token(L.opdesc(so, schedule)) for so in sched_ops]
+        reqs.append("cascade " + " ".join(descs))
+        reals.append(real)
+        metas.append(meta)
+        return real, [L.opdesc(so, schedule) for so in sched_ops]
+
+    def conv_op(H, W, C, k, s, d, mode, step, slices, OC=None, stepw=None, pool=False, conv=True, wo=None, full=None):
+        kern = Kernel(k, k, s, s, d, d)
+        pad, skirt = tgo.calc_padding_and_skirt(Padding.SAME if mode == 0 else Padding.VALID, kern, Shape4D([1, H, W, C]), None)
+        kd = (k - 1) * d + 1
+        OH = (H + pad[0] + pad[2] - kd) // s + 1
+        OW = (W + pad[1] + pad[3] - kd) // s + 1
+        if OH < 1 or OW < 1:
+            return None
+        OC = OC or C
+        m = L.MockOp([1, H, W, C], [1, OH, OW, OC], k, s, d, [int(x) for x in skirt], (step, stepw or OW), slices, conv=conv, pool=pool)
+        m.pad = [int(x) for x in pad]
+        if wo is not None:
+            m.write_offset, m.write_shape = wo, [1, OH, OW, OC]
+            m.ofm_shape = full
+        return m
+
+    # --- B1: the three nested loops of a single operator -------------------------------------------------
+    def slices_for(rng, d, exhaustive_i=None):
+        opts = [[0, d], [0, min(16, d), d] if d > 16 else [0, d], sorted({0, d} | {rng.randrange(1, d) for _ in range(rng.randint(0, 3))} if d > 1 else {0, d})]
+        return opts[exhaustive_i] if exhaustive_i is not None else rng.choice(opts)
+
+    n_b1 = 0
+    for OHt in range(1, 13):
+        for step in range(1, OHt + 2):
+            for (W, stepw) in ((3, 3), (3, 2), (1, 1)) if (ck.thorough or step <= 4 or step >= OHt) else ((3, 3),):
+                for si in range(3):
+                    d = rng.choice([8, 24, 40])
+                    m = L.MockOp([1, OHt, W, 8], [1, OHt, W, d], 1, 1, 1, [0, 0, 0, 0], (step, stepw), slices_for(rng, d, si), conv=True)
+                    real, ds = run([m], ("loops", OHt, step, W, stepw))
+                    n_b1 += 1
+                    add_partition(spec, spec_meta, real, ds[0], ("loops", OHt, step, W, stepw, ds[0]["slices"]))
+    for _ in range(600 if not ck.thorough else 6000):
+        OHt, W, d = rng.randint(1, 30), rng.randint(1, 9), rng.choice([1, 3, 8, 16, 24, 40, 64])
+        step, stepw = rng.randint(1, OHt + 1), rng.choice([W, W, rng.randint(1, W)])
+        sl = slices_for(rng, d)
+        kw = {}
+        r = rng.random()
+        if r < 0.15:       # concat write along H / W / C into a bigger tensor
+            wo = [0, rng.randint(0, 5), rng.randint(0, 3), rng.choice([0, 16])]
+            full = [1, OHt + wo[1] + rng.randint(0, 3), W + wo[2], d + wo[3]]
+            kw = dict(write_offset=wo, write_shape=[1, OHt, W, d])
+            sl = [0, full[3]] if rng.random() < 0.7 else [0, 16, full[3]]
+            m = L.MockOp([1, OHt, W, 8], full, 1, 1, 1, [0, 0, 0, 0], (step, stepw), sl, conv=True, **kw)
+        elif r < 0.2:      # malformed: step 0 / unsorted slices / slices not reaching the depth
+            sl = rng.choice([[0, d, max(d - 1, 0)], [d, 0], [0, max(d - 1, 1)], sl])
+            m = L.MockOp([1, OHt, W, 8], [1, OHt, W, d], 1, 1, 1, [0, 0, 0, 0], (rng.choice([0, step]), rng.choice([0, stepw])), sl, conv=True)
+        else:
+            m = L.MockOp([1, OHt, W, 8], [1, OHt, W, d], 1, 1, 1, [0, 0, 0, 0], (step, stepw), sl, conv=rng.random() < 0.5)
+        real, ds = run([m], ("loops-random",))
+        n_b1 += 1
+        if r >= 0.15 and r < 0.2:
+            continue        # malformed inputs: model correspondence only
+        add_partition(spec, spec_meta, real, ds[0], ("loops-random", ds[0]))
+    # --- B2: cascades: issue order and the rolling buffer ---------------------------------------------------
+    casc = []
+    for H in (list(range(4, 26)) if ck.thorough else [5, 7, 8, 10, 13, 16, 19, 22, 25]):
+        for p in range(1, 7):
+            for q in (1, 2, 3):
+                for k in (1, 2, 3, 5):
+                    for s in (1, 2, 3):
+                        for mode in (0, 1):
+                            casc.append((H, p, q, k, s, 1, mode))
+    casc += [(37, 3, 1, 3, 3, 1, 0), (40, 3, 1, 3, 3, 1, 0), (37, 4, 2, 3, 3, 1, 0), (13, 4, 1, 4, 3, 1, 1)]
+    if not ck.thorough:
+        extra = casc[-4:]
+        casc = rng.sample(casc[:-4], 1500) + extra
+    for _ in range(300 if not ck.thorough else 3000):
+        casc.append((rng.randint(4, 80), rng.randint(1, 9), rng.randint(1, 5), rng.randint(1, 7), rng.randint(1, 3), rng.randint(1, 2), rng.randint(0, 1)))
+    n_b2 = 0
+    for (H, p, q, k, s, d, mode) in casc:
+        W, C = 4, 8
+        prod_slices = rng.choice([[0, C], [0, C], [0, 4, C]])
+        m0 = conv_op(H, W, C, 3, 1, 1, 0, p, prod_slices)
+        m1 = conv_op(H, W, C, k, s, d, mode, q, [0, C], conv=rng.random() < 0.7)
+        if m0 is None or m1 is None or p >= H or q >= m1.ofm_shape[1]:
+            continue
+        ops = [m0, m1]
+        if rng.random() < 0.25:     # three operators
+            H2 = m1.ofm_shape[1]
+            m2 = conv_op(H2, m1.ofm_shape[2], C, rng.choice([1, 3]), 1, 1, 0, rng.randint(1, max(1, H2 - 1)), [0, C])
+            if m2 is not None and m2.step[0] < m2.ofm_shape[1]:
+                ops.append(m2)
+        real, ds = run(ops, ("cascade", H, p, q, k, s, d, mode, len(ops)))
+        n_b2 += 1
+        add_rolling(spec, spec_meta, real, ops, ds, cascade_builder, architecture_allocator, Kernel, Shape4D, resampling_mode)
+    outs = ck.model(reqs)
+    dis = [i for i, (m, r) in enumerate(zip(outs, reals)) if m != r]
+    ck.count("B_single_op_loops", n_b1)
+    ck.count("B_cascades", n_b2)
+    ck.count("B_real_generator_exceptions", sum(1 for r in reals if " err:" in r))
+    sp = ck.model(spec) if spec else []
+    bad = [(i, o) for i, o in enumerate(sp) if o not in ("1", "ok")]
+    return dict(reqs=reqs, reals=reals, outs=outs, dis=dis, metas=metas, spec=spec, spec_meta=spec_meta, spec_out=sp, spec_bad=bad)
+
+
+def parse_cmds(real):
+    """`ok op:y0,y1,x0,x1,c0,c1:ifm8:pt:pb;…[ err:x]` → list of dicts"""
+    body = real[3:]
+    err = None
+    if " err:" in body:
+        body, err = body.rsplit(" ", 1)
+    out = []
+    for tok in body.split(";"):
+        if not tok:
+            continue
+        op, ofm, ifm, pt, pb = tok.split(":")
+        o = list(map(int, ofm.split(",")))
+        i = list(map(int, ifm.split(",")))
+        out.append(dict(op=int(op), y0=o[0], y1=o[1], x0=o[2], x1=o[3], c0=o[4], c1=o[5], ifm=i, pt=int(pt), pb=int(pb)))
+    return out, err
+
+
+def add_partition(spec, spec_meta, real, d, meta):
+    cmds, err = parse_cmds(real)
+    if err is not None:
+        return
+    region = [d["s"][1], d["e"][1], d["s"][2], d["e"][2], d["s"][3], d["e"][3]]
+    spec.append("partition " + " ".join(map(str, region)) + " " + " ".join(f"{c['y0']} {c['y1']} {c['x0']} {c['x1']} {c['c0']} {c['c1']}" for c in cmds))
+    spec_meta.append(("partition", meta))
+
+
+def add_rolling(spec, spec_meta, real, ops, ds, cascade_builder, architecture_allocator, Kernel, Shape4D, resampling_mode):
+    cmds, err = parse_cmds(real)
+    if err is not None:
+        return
+    # storage heights: rolling buffers between consecutive operators (real rolling_buffer_shape on the real
+    # stripe input requirement), the last OFM is stored in full
+    stor, info = [], []
+    for i in range(len(ops) - 1):
+        pm, cm = ops[i], ops[i + 1]
+        kd = (cm.kernel_h - 1) * cm.dilation + 1
+        w_, h_ = architecture_allocator.get_ifm_area_required(Shape4D([1, cm.step[0], cm.step[1], 8]), Kernel(kd, kd, cm.stride, cm.stride, 1, 1),
+                                                              resampling_mode.NONE)
+        c_h = min(int(h_), cm.ifm_shape[1])
+        shp = cascade_builder.rolling_buffer_shape(Shape4D([1, pm.step[0], pm.step[1], 8]), Shape4D([1, c_h, min(int(w_), cm.ifm_shape[2]), 8]))
+        stor.append(int(shp.height))
+        sk = cm.skirt
+        info.append(dict(p=pm.step[0], c=c_h, B=int(shp.height), s=cm.stride, kdil=kd, skirt_top=sk[0], skirt_bottom=sk[2],
+                         over=cm.stride + sk[0] + sk[2] - kd, slack=int(shp.height) - pm.step[0] - c_h, ifm_h=cm.ifm_shape[1]))
+    stor.append(ops[-1].ofm_shape[1])
+    acc = []
+    for c in cmds:
+        m = ops[c["op"]]
+        kd = (m.kernel_h - 1) * m.dilation + 1
+        ext = (c["y1"] - c["y0"] - 1) * m.stride + kd - c["pt"] - c["pb"]
+        a = c["ifm"][1]
+        rT = c["op"]
+        acc.append(f"{c['op'] + 1},{stor[c['op']]},{c['y0']},{c['y1']},{rT},{stor[c['op'] - 1] if rT else 0},{a},{max(a + ext, a)}")
+    spec.append("rolling " + " ".join(acc))
+    spec_meta.append(("rolling", info, [(m.ifm_shape, m.ofm_shape, m.kernel_h, m.stride, m.dilation, m.skirt, m.step) for m in ops]))
+
+
+def classify_rolling(bad_line, info):
+    """KEY_ROLL only when the read that failed goes through a rolling buffer whose consumer over-reads its box by more
+    than 1 + the round-up slack of the buffer (the exact hypothesis of Props.C10.rolling_sufficient_partial is violated)
+    and a LATER row of the same tensor was found in the slot."""
+    import re
+
+    m = re.match(r"bad i=(\d+) tensor=(\d+) row=(\d+) slot=(\d+) found=(\S+)", bad_line)
+    if not m:
+        return None
+    tensor, row, found = int(m.group(2)), int(m.group(3)), m.group(5)
+    if found == "-" or int(found) <= row:
+        return None
+    if tensor - 1 >= len(info) or tensor < 1:
+        return None
+    b = info[tensor - 1]
+    if b["over"] > 1 + b["slack"]:
+        return KEY_ROLL
+    return None
+
+
 def classify_stripe_failure(m):
     """known-finding key for a Spec rejection of a single stripe, or None.
     KEY_TALL: upscaling 1 and the OFM stripe ends below the last IFM row (`end_coord[-3]` is clipped to the IFM height
@@ -259,12 +458,36 @@ def report_a(ck, A):
                           "kinds": sorted({A["reqs"][j].split()[0] for j in A["dis"]})}, found_input=False)
 
 
+def report_b(ck, Bp):
+    for i, o in Bp["spec_bad"][:300]:
+        meta = Bp["spec_meta"][i]
+        if meta[0] == "rolling":
+            key = classify_rolling(o, meta[1])
+            ck.count("B_rolling_reject_" + (key or "UNKNOWN"))
+            ck.violation(f"Lean rolling-buffer simulation rejects the issue order of the real generator: {o}; buffers {meta[1]}; ops {meta[2]}",
+                         {"spec_request": Bp["spec"][i][:3000], "verdict": o, "buffers": meta[1], "ops(ifm,ofm,k,s,d,skirt,step)": meta[2],
+                          "replay": "c10_lib.build_mock_cascade + run_real_generator"}, key=key)
+        else:
+            ck.count("B_partition_reject")
+            ck.violation(f"Lean Spec: the OFM boxes of the real generator do not partition the operator's output: {meta}",
+                         {"spec_request": Bp["spec"][i][:3000], "case": meta})
+    if Bp["dis"] and not any(classify_rolling(o, Bp["spec_meta"][i][1]) is None for i, o in Bp["spec_bad"] if Bp["spec_meta"][i][0] == "rolling") \
+            and not any(Bp["spec_meta"][i][0] == "partition" for i, _o in Bp["spec_bad"]):
+        i = min(Bp["dis"], key=lambda j: len(Bp["reqs"][j]))
+        ck.violation("correspondence Model/Stripes.lean + Model/Cascade.lean (cascadeOrder) vs the real generator broken on %d inputs" % len(Bp["dis"]),
+                     {"correspondence": "cascade", "request": Bp["reqs"][i], "model": Bp["outs"][i][:3000], "implementation": Bp["reals"][i][:3000],
+                      "case": Bp["metas"][i], "n": len(Bp["dis"])}, found_input=False)
+
+
 def main():
     ck = Check("C10", "proof")
     ck.lean_stage(["VelaVerif.Props.C10"])
     common.setup_repo_path()
     A = part_a(ck)
     report_a(ck, A)
+    Bp = part_b(ck)
+    report_b(ck, Bp)
+    print("B", len(Bp["reqs"]), len(Bp["dis"]), len(Bp["spec"]), len(Bp["spec_bad"]))
     ck.finish({"evaluations": len(A["reqs"]) + len(A["spec"]), "distinct_nontrivial": len(set(A["reqs"])), "rule": "tbd",
                "A_disagreements": len(A["dis"]), "A_spec_rejections": len(A["spec_bad"])})
 
